@@ -40,9 +40,83 @@ import crosshair.libimpl.builtinslib as _bl
 # the paths; every harness here is about doubles, so the precise FP64 model is the only one used.
 _bl._PYTYPE_TO_WRAPPER_TYPE[float] = ((_bl.PreciseIeeeSymbolicFloat, 1.0),)
 
+# CrossHair's int() patch realises a symbolic float although PreciseIeeeSymbolicFloat.__int__ has an
+# exact SMT encoding (ToInt(fpToReal(roundToIntegral(RTZ, x)))); route int(<symbolic double>) to it.
+import crosshair.core as _core
+_orig_int_patch = _core._PATCH_REGISTRATIONS[int]
+
+
+def _int_keeping_doubles_symbolic(val=0, *a, **kw):
+    with NoTracing():
+        sym_double = isinstance(val, _bl.PreciseIeeeSymbolicFloat) and not a and not kw
+        if not sym_double and not isinstance(val, _core.CrossHairValue) \
+                and not any(isinstance(x, _core.CrossHairValue) for x in a):
+            return int(val, *a, **kw)          # fully concrete: the real int()
+    if sym_double:
+        return _double_to_int(val)
+    return _orig_int_patch(val, *a, **kw)
+
+
+def _double_to_int(x):
+    """int(x) for a symbolic double, exactly as CPython: truncate; NaN / infinities raise.
+    (PreciseIeeeSymbolicFloat.__int__ itself calls the C-level math.isfinite, which realises.)"""
+    import z3
+    with NoTracing():
+        is_nan = _bl.SymbolicBool(z3.fpIsNaN(x.var))
+        is_inf = _bl.SymbolicBool(z3.fpIsInf(x.var))
+    if is_nan:
+        raise ValueError("cannot convert float NaN to integer")
+    if is_inf:
+        raise OverflowError("cannot convert float infinity to integer")
+    with NoTracing():
+        return _bl.SymbolicInt(z3.ToInt(z3.fpToReal(z3.fpRoundToIntegral(z3.RTZ(), x.var))))
+
+
+_core._PATCH_REGISTRATIONS[int] = _int_keeping_doubles_symbolic
+
 from . import compat
 from .compat import BoundReached, HangAbort, KnownRegion
 from .codec import enc
+
+# ---- math.fmod: contract stub -------------------------------------------------------------------
+# fmod has no SMT counterpart (fp.rem is the IEEE remainder, not the truncating one) and CrossHair
+# realises its arguments.  Under symbolic execution it is replaced by its contract: for finite a and
+# finite non-zero b the result is *some* double r with |r| < |b|, |r| <= |a|, the sign of a, and r == a
+# when |a| < |b|.  Everything a caller does with the result is then explored for every such r (an
+# over-approximation that contains the real value); the digits of r are not modelled.
+import math as _math
+
+
+def _fmod_contract(a, b):
+    import z3
+    with NoTracing():
+        sym = isinstance(a, _core.CrossHairValue) or isinstance(b, _core.CrossHairValue)
+        if not sym:
+            return _math.fmod(a, b)
+    a = float(a)
+    b = float(b)
+    if a != a or b != b:
+        return float("nan")
+    if _math.isinf(a) or b == 0:
+        raise ValueError("math domain error")
+    if _math.isinf(b):
+        return a
+    with NoTracing():
+        space = _ss.context_statespace()
+        F = _bl.PreciseIeeeSymbolicFloat
+        av = a.var if isinstance(a, F) else z3.FPVal(a, z3.Float64())
+        bv = b.var if isinstance(b, F) else z3.FPVal(b, z3.Float64())
+        r = F("fmod" + space.uniq(), float)
+        rv = r.var
+        space.add(z3.Not(z3.fpIsNaN(rv)))
+        space.add(z3.fpLT(z3.fpAbs(rv), z3.fpAbs(bv)))
+        space.add(z3.fpLEQ(z3.fpAbs(rv), z3.fpAbs(av)))
+        space.add(z3.fpIsNegative(rv) == z3.fpIsNegative(av))
+        space.add(z3.Implies(z3.fpLT(z3.fpAbs(av), z3.fpAbs(bv)), z3.fpEQ(rv, av)))
+        return r
+
+
+_core._PATCH_REGISTRATIONS[_math.fmod] = _fmod_contract
 
 # ---- solver accounting -------------------------------------------------------------
 SOLVER = {"checks": 0, "seconds": 0.0}
